@@ -21,6 +21,8 @@ mod c_bytecode;
 mod c_total;
 mod c_context;
 mod c_shape;
+mod c_solver;
+mod c_render;
 mod c_deriv;
 mod helpers;
 
@@ -55,7 +57,7 @@ fn main() {
 }
 
 /// contracts that run JIT evaluators in-process (`total` manages its own children)
-const JIT_IN_PROCESS: [&str; 8] = ["jit_point", "jit_bulk", "jit_interval", "jit_interval_valid", "jit_grad", "jit_trace", "simplify_sem", "reuse"];
+const JIT_IN_PROCESS: [&str; 11] = ["render_handle", "solver_bind", "shape_transform", "jit_point", "jit_bulk", "jit_interval", "jit_interval_valid", "jit_grad", "jit_trace", "simplify_sem", "reuse"];
 
 fn guarded(contract: &str, rest: &[String]) -> serde_json::Value {
     let died = |what: String| {
@@ -108,6 +110,10 @@ pub fn run(contract: &str, thorough: bool, seed: u64) -> Report {
         "total" => c_total::total(thorough, seed),
         "context_rewrites" => c_context::context_rewrites(thorough),
         "shape_bind" => c_shape::shape_bind(thorough),
+        "shape_transform" => c_shape::shape_transform(thorough),
+        "solver_bind" => c_solver::solver_bind(thorough),
+        "shape_reuse" => c_shape::shape_reuse(thorough),
+        "render_handle" => c_render::render_handle(thorough),
         "deriv_rules" => c_deriv::deriv_rules(thorough),
         _ => {
             eprintln!("unknown contract {contract}");
@@ -130,6 +136,10 @@ fn replay(v: &serde_json::Value) -> i32 {
         "total" => c_total::replay(v),
         "context_rewrites" => c_context::replay(v),
         "shape_bind" => c_shape::replay(v),
+        "shape_transform" => c_shape::replay_transform(v),
+        "solver_bind" => c_solver::replay(v),
+        "shape_reuse" => c_shape::replay_reuse(v),
+        "render_handle" => c_render::replay(v),
         "deriv_rules" => c_deriv::replay(v),
         _ => {
             eprintln!("no replay for contract {contract}");
